@@ -219,3 +219,16 @@ pub fn deprecated_subtree() -> Vec<Program> {
     ];
     (0..3u8).map(|k| prog_on(schema.clone(), doc.clone(), move |o| { o.deprecation = Some(k); })).collect()
 }
+
+/// The zoo as a tool-printed SDL that also declares the five built-in scalars (legal, and common in printed
+/// schemas): nothing about the generated module may change — one alias per built-in, no second definition.
+pub fn explicit_builtin_scalars() -> Vec<Program> {
+    let t = Sel::typename;
+    let fld = Sel::field;
+    let mut schema = zoo();
+    let mut defs: Vec<TypeDef> = ["Int", "Float", "String", "Boolean", "ID"].iter().map(|n| TypeDef::Scalar { name: n.to_string() }).collect();
+    defs.extend(schema.defs.drain(..));
+    schema.defs = defs;
+    let doc = vec![op("Printed", vec![Sel::obj("animals", vec![t(), fld("id"), fld("name"), fld("born"), on("Cat", vec![fld("lives"), fld("weights")]), on("Dog", vec![fld("barks")])]), fld("count"), Sel::obj("me", vec![fld("ids"), fld("codes")])])];
+    vec![prog_on(schema.clone(), doc.clone(), |_| {}), prog_on(schema, doc, |o| { o.normalization_rust = true; })]
+}
